@@ -38,6 +38,11 @@ func TestVerifReplay(_ *testing.T) {
 		fmt.Println("VERIF-RESULT " + l)
 	}
 	// total bytes allocated is only a usable native proxy for "one allocation above the ceiling" at the 2 GiB ceiling
+	// (for a small caller-configured ceiling: total allocation far above it - the engine picks such models - is taken as
+	// confirmation; legitimate totals stay near the ceiling)
+	if kind == "ok" && vAllocCeiling < 1<<30 && ms1.TotalAlloc-ms0.TotalAlloc > 2*vAllocCeiling+16384 {
+		kind, detail = "alloc", fmt.Sprintf("%d bytes allocated during the harness under a ceiling of %d", ms1.TotalAlloc-ms0.TotalAlloc, vAllocCeiling)
+	}
 	if kind == "ok" && vAllocCeiling >= 1<<30 && ms1.TotalAlloc-ms0.TotalAlloc > vAllocCeiling {
 		kind, detail = "alloc", fmt.Sprintf("%d bytes allocated during the harness", ms1.TotalAlloc-ms0.TotalAlloc)
 	}
